@@ -6,7 +6,7 @@ use vstd::std_specs::cmp::*;
 use std::collections::HashMap;
 use std::collections::HashSet;
 use vstd::std_specs::hash::*;
-broadcast use vstd::std_specs::hash::group_hash_axioms;
+//@broadcast vstd::std_specs::hash::group_hash_axioms
 
 pub trait ContentAddrStore {}
 
@@ -176,6 +176,12 @@ impl CoinID {
 }
 pub uninterp spec fn spec_reward_hash(height: BlockHeight) -> HashVal;   // hash_keyed(b"reward_coin_pseudoid", height.to_be_bytes())
 pub open spec fn spec_proposer_reward(height: BlockHeight) -> CoinID { CoinID { txhash: TxHash(spec_reward_hash(height)), index: 0 } }
+
+// ---- melswap
+#[derive(Clone, Copy)]
+pub struct PoolState { pub lefts: u128, pub rights: u128, pub price_accum: u128, pub liqs: u128 }
+#[derive(Clone, Copy, PartialEq, Eq, Hash, Structural)]
+pub struct PoolKey { pub left: Denom, pub right: Denom }
 
 pub type FxHashMap<K, V> = HashMap<K, V>;
 pub type FxHashSet<K> = HashSet<K>;
